@@ -337,6 +337,9 @@ def deep_probe(run, depth=130):
     if any(r.datetime is None for r in recs):
         run.violate("C20/record-without-timestamp/rtc-ring-overflow",
                     "a step with more than 250 handler calls appended a trace record without timestamp or signal (trace() then raises TypeError)", cj)
+    elif len([r for r in recs if r.signal is not None]) < 1:
+        run.violate("C20/record-lost/rtc-ring-overflow",
+                    "a transition step with more than 250 handler calls (exit and re-entry of %d nested states) appended no trace record" % depth, cj)
     run.case(cj, nontrivial=True)
 
 
@@ -375,8 +378,128 @@ def long_history_probe(run, focus, nsteps=560):
         run.case(cj, nontrivial=True)
 
 
+def meta_signal_probe(run):
+    """an instrumented active object that subscribes / publishes before it is started: the meta events are answered by `top`, no
+    state takes part, no transition happens: the trace holds the start record only and trace() can be printed"""
+    import dsched
+    import miros.activeobject as mao
+    from charts import signals, return_status
+    for what in ("subscribe", "publish", "both"):
+        res = {}
+        saved_pp = mao.pp
+        mao.pp = lambda x: None
+        with dsched.Installed():
+            sched = dsched.Sched(dsched.round_robin_chooser(), max_steps=6000, trace=False)
+            dsched.Sched.current = sched
+            try:
+                def st(chart, e):
+                    if e.signal in (signals.ENTRY_SIGNAL, signals.INIT_SIGNAL, signals.EXIT_SIGNAL):
+                        return return_status.HANDLED
+                    if e.signal_name == "PING":
+                        return return_status.HANDLED
+                    chart.temp.fun = chart.top
+                    return return_status.SUPER
+                st.__name__ = "only"
+                ao = mao.ActiveObject(name="M")
+
+                def driver():
+                    if what in ("subscribe", "both"):
+                        ao.subscribe(Event(signal="PING"))
+                    if what in ("publish", "both"):
+                        ao.publish(Event(signal="PONG"))
+                    ao.start_at(mhsm.spy_on(st))
+                sched.spawn(driver, (), name="D")
+                sched.run()
+                res["recs"] = [(t.datetime is not None, t.start_state, t.signal, t.end_state) for t in ao.full.trace]
+                try:
+                    res["trace"] = ao.trace()
+                except Exception as ex:  # noqa
+                    res["trace_error"] = "%s: %s" % (type(ex).__name__, ex)
+            finally:
+                sched.shutdown()
+                mao.pp = saved_pp
+        cj = {"meta_signal_probe": what}
+        run.count("meta signals before start (%s)" % what)
+        run.traces_validated += 1
+        if len(res.get("recs", [])) != 1 or "trace_error" in res:
+            run.violate("C20/meta-signal-record", "active object that calls %s before start_at: the trace holds %s%s; expected the start record only"
+                        % (what, res.get("recs"), (", trace() raises " + res["trace_error"]) if "trace_error" in res else ""), cj)
+        run.case(cj, nontrivial=True)
+
+
+def clear_probe(run, focus, nsteps=620):
+    """clear_spy() / clear_trace() in the middle of a history, then more than a ring's worth of steps, with trace() and spy()
+    read again and again on the way (oracle only: the Lean model has no clear operation): the full spy is the last 500 lines
+    of the step logs since the clear, the trace holds the last 500 records since the clear, trace() shows exactly them"""
+    rng = run.rng
+    saved_clock = mhsm.stdlib_datetime
+    mhsm.stdlib_datetime = FakeClock("fine")
+    try:
+        c = charts.GenChart(3, {1: 0, 2: 1, 3: 1}, {1: {}, 2: {0: ("T", 3), 1: ("H", 0)}, 3: {0: ("T", 2)}}, {}, nsig=2)
+        log = []
+        hsm = mhsm.HsmWithQueues()
+        fns = c.build(log, spied=True)
+        hsm.start_at(fns[2])
+        lines, recs = list(hsm.spy_rtc()), 1
+        clear_at = rng.randint(20, 60)
+        bad = None
+        for k in range(nsteps):
+            if k == clear_at:
+                hsm.clear_spy()
+                hsm.clear_trace()
+                lines, recs = [], 0
+            sig = 0 if rng.random() < 0.9 else 1
+            hsm.post_fifo(Event(signal="E%d" % sig))
+            hsm.next_rtc()
+            step = list(hsm.spy_rtc())
+            # (the marker of a post made between steps lives in the per-step log only until the step starts; the full spy is the
+            # concatenation of the step logs as spy_rtc() shows them after each step)
+            lines += step
+            if sig == 0:
+                recs += 1
+            if k % 37 == 0 or k > nsteps - 4:
+                full = list(hsm.spy())
+                want = lines[-500:]
+                if full != want and bad is None:
+                    bad = ("C19/full-spy-after-clear", "step %d (clear_spy at step %d): spy() holds %d lines, the last 500 lines of the step logs "
+                           "since the clear are %d lines%s" % (k, clear_at, len(full), len(want), "" if len(full) != len(want) else " (contents differ)"))
+                tr = hsm.trace()
+                n_tr = len([l for l in tr.split("\n") if l.strip()])
+                held = list(hsm.full.trace)
+                if (len(held) != min(recs, 500) or n_tr != len(held) or (held and ("%s->%s" % (held[-1].start_state, held[-1].end_state)) not in tr.strip().split("\n")[-1])) and bad is None:
+                    bad = ("C20/trace-after-clear", "step %d (clear_trace at step %d): %d transitions since the clear, the trace holds %d records, "
+                           "trace() shows %d lines, its last line is %r, the last record is %s->%s" % (
+                               k, clear_at, recs, len(held), n_tr, tr.strip().split("\n")[-1][-40:], held[-1].start_state if held else None,
+                               held[-1].end_state if held else None))
+        cj = {"clear_probe": nsteps, "clear_at": clear_at}
+        run.count("clear_spy / clear_trace probe (%d steps)" % nsteps)
+        run.traces_validated += 1
+        if bad and bad[0].startswith(focus):
+            run.violate(bad[0], bad[1], cj)
+        elif bad:
+            run.count("clear probe: %s (belongs to %s)" % (bad[0], bad[0][:3]))
+        run.case(cj, nontrivial=True)
+    finally:
+        mhsm.stdlib_datetime = saved_clock
+
+
 def replay(case):
     cc = case.get("case", case)
+    if "meta_signal_probe" in cc:
+        class R2:
+            traces_validated = 0
+            def __getattr__(self, k):
+                return lambda *a, **kw: print(k, a[:2])
+        meta_signal_probe(R2())
+        return 0
+    if "clear_probe" in cc:
+        class R:
+            rng = random.Random(0)
+            traces_validated = 0
+            def __getattr__(self, k):
+                return lambda *a, **kw: print(k, a[:2])
+        clear_probe(R(), "C", cc["clear_probe"])
+        return 0
     if "long_history" in cc:
         class R:
             rng = random.Random(0)
